@@ -11,9 +11,10 @@ bad = 0
 for f in kf:
     if f["status"] != "fixed": continue
     if sel and f["property"] not in sel: continue
-    r = sh(f"cd /repo && git show {f['commit']} -- src | git apply -R")
+    pre = "".join(f"git show {c} -- src | git apply -R && " for c in f.get("revert_also", []))
+    r = sh(f"cd /repo && {pre}git show {f['commit']} -- src | git apply -R")
     if r.returncode != 0:
-        print("cannot revert", f["commit"], r.stderr[:200]); bad += 1; continue
+        print("cannot revert", f["commit"], r.stderr[:200]); bad += 1; sh("git -C /repo checkout -- ."); continue
     try:
         p = sh(f"cd /verif && ./check {f['property']} --tier quick")
     finally:
